@@ -77,7 +77,10 @@ def pair_unit(arg):
     for ai, argstr in enumerate(argstrs):
         sym_opts = ai < nsym
         reset_order(seed)
-        natural = len(Tableau(logic, Argument(argstr)).build().history)
+        tab0 = Tableau(logic, Argument(argstr))
+        while tab0.step() is not None and len(tab0.history) <= maxlen:
+            pass
+        natural = len(tab0.history)
         if natural > maxlen:
             # outside the stated bound on proof length (cost grows quadratically)
             out['skipped_long'].append((argstr, natural))
